@@ -278,6 +278,98 @@ func (o *C18) AfterEnd(w *World) {
 type C19 struct {
 	BaseOracle
 	hashCnt map[string]int // tx hash -> transfers executed in this block carrying it (a fee record is keyed by the hash)
+	// paid: chain -> transfer id -> the bridge fee its sender paid, in the token's external units (hub units
+	// truncated), taken from the request or the observed event itself, never from what the hub stored
+	paid map[string]map[uint64]*big.Int
+}
+
+// extUnits converts hub units (18 decimals) to a token's external units, truncating.
+func extUnits(hubUnits *big.Int, dec uint64) *big.Int {
+	if dec >= 18 {
+		return new(big.Int).Mul(hubUnits, pow10(dec-18))
+	}
+	return new(big.Int).Quo(hubUnits, pow10(18-dec))
+}
+
+func (o *C19) notePaid(chain string, id uint64, v *big.Int) {
+	if o.paid == nil {
+		o.paid = map[string]map[uint64]*big.Int{}
+	}
+	if o.paid[chain] == nil {
+		o.paid[chain] = map[uint64]*big.Int{}
+	}
+	o.paid[chain][id] = v
+}
+
+// AfterTx remembers what the sender of every new withdrawal paid as bridge fee.
+func (o *C19) AfterTx(w *World, r *TxResult) {
+	if r.Tx.Kind != "user_send" || r.Code != 0 {
+		return
+	}
+	t := w.T()
+	ch, denom := r.Tx.Meta["chain"], r.Tx.Meta["denom"]
+	tk := w.Cfg.Token(ch, denom)
+	if tk == nil {
+		return
+	}
+	fee := bigOf(r.Tx.Meta["fee"])
+	if fee.Sign() < 0 {
+		return
+	}
+	for id := range t.Cur.Pool[ch] {
+		if _, old := t.Prev.Pool[ch][id]; old {
+			continue
+		}
+		if _, oldb := t.Prev.InBatch[ch][id]; oldb {
+			continue
+		}
+		o.notePaid(ch, id, extUnits(fee, tk.Decimals))
+	}
+}
+
+// notePaidByEvents does the same for the transfers that this EndBlock created from observed chain-to-chain deposits.
+func (o *C19) notePaidByEvents(w *World) {
+	t := w.T()
+	// whatever this EndBlock created starts without a record (transfer ids may be handed out again after a restart)
+	for ch, pool := range t.Cur.Pool {
+		for id := range pool {
+			if _, old := t.PreEnd.Pool[ch][id]; !old {
+				if _, oldb := t.PreEnd.InBatch[ch][id]; !oldb {
+					delete(o.paid[ch], id)
+				}
+			}
+		}
+	}
+	cnt := map[string]int{}
+	for _, a := range t.Applied {
+		if e, ok := a.Event.(*mhub2types.TransferToChainEvent); ok {
+			cnt[e.TxHash]++
+		}
+	}
+	for _, a := range t.Applied {
+		e, ok := a.Event.(*mhub2types.TransferToChainEvent)
+		if !ok || cnt[e.TxHash] != 1 || e.ReceiverChainId == "hub" {
+			continue
+		}
+		src := w.TokenOf(a.Chain, e.ExternalCoinId)
+		if src == nil {
+			continue
+		}
+		dst := w.Cfg.Token(e.ReceiverChainId, src.Denom)
+		if dst == nil || e.Fee.IsNil() || e.Fee.IsNegative() {
+			continue
+		}
+		hubFee := floorHub(e.Fee.BigInt(), src.Decimals)
+		for id, x := range t.Cur.Pool[e.ReceiverChainId] {
+			if _, old := t.PreEnd.Pool[e.ReceiverChainId][id]; old || x.TxHash != e.TxHash {
+				continue
+			}
+			if _, oldb := t.PreEnd.InBatch[e.ReceiverChainId][id]; oldb {
+				continue
+			}
+			o.notePaid(e.ReceiverChainId, id, extUnits(hubFee, dst.Decimals))
+		}
+	}
 }
 
 func (*C19) Property() string { return "C19" }
@@ -286,6 +378,7 @@ func floorHub(v *big.Int, dec uint64) *big.Int { return ratFloor(ToHubUnits(v, d
 
 func (o *C19) AfterEnd(w *World) {
 	t := w.T()
+	o.notePaidByEvents(w)
 	// executions applied by this EndBlock, grouped by the hub denomination they pay out in: payouts of
 	// one denomination are attributable to the group, not to a single execution
 	type exec struct {
@@ -347,6 +440,13 @@ func (o *C19) checkGroup(w *World, denom string, n int, each func(func(chain str
 	each(func(chain string, e *mhub2types.BatchExecutedEvent, b *mhub2types.BatchTx, tk *TokenCfg) {
 		sumC, sumF := new(big.Int), new(big.Int)
 		for _, tx := range b.Transactions {
+			if p := o.paid[chain][tx.Id]; p != nil {
+				w.St.Check("C19:fee-as-paid")
+				if tx.Fee.Amount.BigInt().Cmp(p) > 0 {
+					w.Fail("C19", "fee-above-paid", "dec"+strconv.FormatUint(tk.Decimals, 10), fmt.Sprintf("%s transfer %d of executed batch %d carries a fee of %s external units (%d decimals), from which reimbursement, refund and fee record are computed; its sender paid %s", chain, tx.Id, b.BatchNonce, tx.Fee.Amount, tk.Decimals, p))
+					return
+				}
+			}
 			sumC.Add(sumC, tx.ValCommission.Amount.BigInt())
 			sumF.Add(sumF, tx.Fee.Amount.BigInt())
 			k := strings.ToLower(tx.RefundAddress)
